@@ -28,6 +28,8 @@ type c08opsTpl struct {
 	Spawn   string   // replaces the default spawn loop when not empty
 	Post    string   // statements in main after the spawn loop, before wg.Wait()
 	After   string   // statements in main after wg.Wait(), before the results are printed
+	Region  string   // the cell lies in the region of a known finding (label); "" = main stream
+	KMul    int      // iterations multiplier (statements whose failure needs real overlap of executions)
 	Skip    string   // not generated: the unchanged tree disagrees with compiled Go here for a reason outside C08 (label)
 }
 
